@@ -110,12 +110,13 @@ type Edge struct {
 
 // Node is a built node.
 type Node struct {
-	ID    int
-	Canon int // canonical node with the same descriptor triple (== ID when unique)
-	Spec  NodeSpec
-	Desc  ocispec.Descriptor // plain triple
-	Bytes []byte
-	Edges []Edge // to canonical ids, duplicates preserved
+	ID     int
+	Canon  int // canonical node with the same descriptor triple (== ID when unique)
+	DCanon int // first node with the same digest (== Canon when the bytes appear under one media type)
+	Spec   NodeSpec
+	Desc   ocispec.Descriptor // plain triple
+	Bytes  []byte
+	Edges  []Edge // to canonical ids, duplicates preserved
 }
 
 // DAG is a built graph.
@@ -177,6 +178,7 @@ func (n *Node) EffectiveArtifactType(d *DAG) string {
 func Build(specs []NodeSpec) *DAG {
 	d := &DAG{}
 	byTriple := map[string]int{}
+	byDigest := map[string]int{}
 	for i, s := range specs {
 		n := &Node{ID: i, Canon: i, Spec: s}
 		emb := func(r Ref) ocispec.Descriptor {
@@ -295,6 +297,12 @@ func Build(specs []NodeSpec) *DAG {
 			n.Canon = c
 		} else {
 			byTriple[key] = i
+		}
+		if c, ok := byDigest[n.Desc.Digest.String()]; ok {
+			n.DCanon = c
+		} else {
+			byDigest[n.Desc.Digest.String()] = n.Canon
+			n.DCanon = n.Canon
 		}
 		d.Nodes = append(d.Nodes, n)
 	}
